@@ -280,6 +280,43 @@ impl E1Oracle for C15Oracle {
     }
 }
 
+/// tall parallel groups: one pair (or one node's self-loop) carrying k parallel edges for EVERY k in 1..=TALL_MAX, beside a
+/// second pair with two; integer weights, so every summation order gives the same exact sum.  E1 reaches groups of
+/// at most `depth` edges; this stage is the group-size axis on its own.
+const TALL_MAX: usize = 24;
+fn tall_graph(directed: bool, looped: bool, k: usize) -> G {
+    let base = if directed { graphrs::GraphSpecs::directed_create_missing() } else { graphrs::GraphSpecs::undirected_create_missing() };
+    let mut g = G::new(graphrs::GraphSpecs { multi_edges: true, self_loops: true, ..base });
+    let _ = g.add_edge(graphrs::Edge::with_weight("b", "c", 1.0));
+    for i in 0..k {
+        let _ = g.add_edge(graphrs::Edge::with_weight("a", if looped { "a" } else { "b" }, (i + 1) as f64));
+    }
+    let _ = g.add_edge(graphrs::Edge::with_weight("b", "c", 2.0));
+    g
+}
+fn tall_stage(rec: &Recorder, c: &mut Counters, only: Option<&str>) {
+    let alphabet = alphabet_by_name("mix3");
+    for directed in [true, false] {
+        for looped in [false, true] {
+            for k in 1..=TALL_MAX {
+                let case = format!("tall:{}:{}:{k}", directed as u8, looped as u8);
+                if only.map_or(false, |o| o != case) {
+                    continue;
+                }
+                c.inc("tall_group_graphs");
+                let g = tall_graph(directed, looped, k);
+                let mut fail = |clause: &str, call: &str, detail: String| {
+                    rec.record(Violation::new(clause, call, case.clone(), format!("{} multigraph, {k} parallel edges a-{} with weights 1..={k}, two edges b-c (weights 1, 2)\n{detail}", if directed { "directed" } else { "undirected" }, if looped { "a" } else { "b" })).with_tags(vec!["tall_group".into()]));
+                };
+                let mut cc = Counters::default();
+                if let Err(pi) = guarded(|| check_derived(&g, &alphabet, false, &mut cc, &mut fail)) {
+                    rec.record(Violation::new("no_panic", "derived-graph call", case.clone(), pi.msg.clone()).with_panic(pi));
+                }
+            }
+        }
+    }
+}
+
 pub fn run(tier: &str, rec: &Recorder) -> RunOutput {
     let start = Instant::now();
     let mut out = RunOutput::new("model_checking");
@@ -303,6 +340,13 @@ pub fn run(tier: &str, rec: &Recorder) -> RunOutput {
         fill_e1_coverage(&mut out, &r, &p);
         ex &= !r.capped;
     }
+    {
+        let mut c = Counters::default();
+        tall_stage(rec, &mut c, None);
+        for (k, v) in &c.0 {
+            out.add(k, *v);
+        }
+    }
     out.set("exhaustive", ex);
     out.set("stages", serde_json::Value::Array(notes));
     out.set("traces_validated_against_impl", out.get("derived_graphs"));
@@ -317,6 +361,11 @@ pub fn run(tier: &str, rec: &Recorder) -> RunOutput {
 }
 
 pub fn replay(case: &str, rec: &Recorder) -> bool {
+    if case.starts_with("tall:") {
+        let mut c = Counters::default();
+        tall_stage(rec, &mut c, Some(case));
+        return rec.has_any();
+    }
     let pc = match parse_case(case) {
         Some(p) => p,
         None => return false,
